@@ -307,6 +307,7 @@ def replay(case):
             r = _file_case((case["text"], d))
         finally:
             shutil.rmtree(d, ignore_errors=True)
+        return (r is not None), repr(r).replace(d, "<TMP>")
     else:
         r = judge(case["text"])
     return (r is not None), repr(r)
